@@ -252,6 +252,9 @@ class C11(Prop):
                 ex.probe("point." + p)
         ex.probe("policy." + cfg["policy"])
         ex.probe("scenario." + cfg["scenario"])
+        for k, v in run.get("stats", {}).items():
+            if v:
+                ex.probe("sched." + k, v)
         if run["stalled"]:
             return run, {"monitor": "sched.progress", "class": "no_progress_within_step_cap",
                          "detail": {"steps": run["steps"], "schedule_tail": run["schedule"][-10:]}}
